@@ -174,6 +174,18 @@ def _post_overrides(name, d, stubs):
     for k, v in (stubs or {}).items():
         if k in d:
             d[k] = v
+    if name == 'cardutil.BitArray' and 'BitArray' in d and hasattr(d['BitArray'], 'tolist'):
+        # abstract bytes cannot go through array('B', ...): bit list of abstract bytes through the peek table (model; concrete bytes run
+        # the real method)
+        cls = d['BitArray']
+        real = cls.tolist
+
+        def tolist(self, _real=real):
+            if isinstance(self.bytes, models.Rope):
+                return models.bits_of(self.bytes, getattr(self, 'endian', 'big'))
+            return _real(self)
+        tolist.__wrapped__ = real
+        cls.tolist = tolist
 
 
 class _Loader:
